@@ -285,6 +285,7 @@ func cmdCheck(args []string) int {
 	inlined := map[string]bool{}
 	havocCalls := map[string]bool{}
 	covers := 0
+	var slow []*OblResult
 	for _, ur := range units {
 		if ur.Err != "" {
 			rp := filepath.Join(replayDir, sanitizeFile(ur.Name)+".engine.json")
@@ -343,6 +344,9 @@ func cmdCheck(args []string) int {
 			if ok {
 				nDis++
 				bySolver[r.Solver]++
+				if !o.Cover {
+					slow = append(slow, r)
+				}
 				if len(samples) < 6 && o.Kind != "safe" && o.Kind != "cover" {
 					samples = append(samples, map[string]any{"obligation": o.ID, "kind": o.Kind, "clause": o.Desc, "result": r.Status, "solver": r.Solver, "seconds": round3(r.Seconds), "smt2": r.File})
 				}
@@ -465,6 +469,7 @@ func cmdCheck(args []string) int {
 				"bounded":                  boundedOut,
 				"replay_probes_run":        probesRun,
 				"must_fail_corpus":         selftestOut,
+				"slowest_obligations":      slowest(slow, 5),
 				"vacuity":                  map[string]any{"cover_obligations": covers},
 				"known_findings_reported":  findingsOut,
 				"samples":                  samples,
@@ -621,4 +626,14 @@ func (cx *Ctx) structuralUnit(sd *Structural) *UnitResult {
 	}
 	ur.Results = append(ur.Results, cov)
 	return ur
+}
+
+// slowest: the n discharged obligations that took the solver longest (a watch list for near-timeout proofs)
+func slowest(rs []*OblResult, n int) []map[string]any {
+	sort.Slice(rs, func(i, j int) bool { return rs[i].Seconds > rs[j].Seconds })
+	var out []map[string]any
+	for i := 0; i < n && i < len(rs); i++ {
+		out = append(out, map[string]any{"obligation": rs[i].Obl.ID, "seconds": round3(rs[i].Seconds), "solver": rs[i].Solver})
+	}
+	return out
 }
